@@ -18,6 +18,7 @@ mod val;
 mod p_clvm;
 mod corpus;
 mod p_history;
+mod p_reader;
 mod p_repl;
 mod p_symbols;
 mod p_usecheck;
@@ -38,6 +39,7 @@ pub fn handle(job: &Value) -> Value {
         "entry" => p_entry::op_entry(job),
         "usecheck" => p_usecheck::op_usecheck(job),
         "repl" => p_repl::op_repl(job),
+        "parse" => p_reader::op_parse(job),
         "modrun" => p_repl::op_modrun(job),
         "ping" => json!({"pong": true}),
         other => json!({"error": format!("unknown op {other}")}),
@@ -56,6 +58,8 @@ fn main() {
         "replay-clvm" => p_clvm::replay(&rest),
         "drive-clvm" => p_clvm::drive(&rest),
         "drive-compile" => p_compile::drive(&rest),
+        "drive-reader" => p_reader::drive(&rest),
+        "replay-reader" => p_reader::replay(&rest),
         "drive-repl" => p_repl::drive(&rest),
         "drive-symbols" => p_symbols::drive(&rest),
         "drive-usecheck" => p_usecheck::drive(&rest),
